@@ -188,6 +188,8 @@ PROP_FILES = {
     "C15": ["Props/C15.v"],
     "C16": ["Props/C16.v"],
     "C17": ["Props/C17.v"],
+    "C03": ["Props/C03.v"], "C04": ["Props/C04.v"], "C05": ["Props/C05.v"], "C06": ["Props/C06.v"],
+    "C07": ["Props/C07.v"], "C20": ["Props/C20.v"],
     "C08": ["Props/C08.v"],
     "C09": ["Props/C09.v"],
 }
